@@ -147,7 +147,9 @@ func (p *DefaultOpcodeParser) Parse(s *bscript.Script) (ParsedScript, error) {
 		}
 
 		switch parsedOp.op.val {
-		case bscript.OpIF, bscript.OpNOTIF, bscript.OpVERIF, bscript.OpVERNOTIF:
+		case bscript.OpIF, bscript.OpNOTIF:
+			// OP_VERIF and OP_VERNOTIF do not open a block: they never
+			// take a matching OP_ENDIF.
 			conditionalBlock++
 		case bscript.OpENDIF:
 			conditionalBlock--
